@@ -177,7 +177,9 @@ def generate(spec):
         elif r < 0.36:
             ops.append({"op": "set_initial", "elem": rng.choice(["s1", "s2"]), "value": rng.choice(INIT_CHOICES)})
         elif r < 0.50:
-            ops.append({"op": "set_constant", "elem": rng.choice(["k1", "k2"]), "value": rng.choice([0.0, 0.5, 1.0, 3.0, -2.0])})
+            # also values that differ from each other by less than any "reasonable" tolerance: a different number is a different number
+            ops.append({"op": "set_constant", "elem": rng.choice(["k1", "k2"]),
+                        "value": rng.choice([0.0, 0.5, 1.0, 3.0, -2.0, 2e-10, 8e-10, 1000.0, 1000.0000004, 0.5000000000000001])})
         elif r < 0.72:
             ops.append({"op": "evaluate", "elem": rng.choice(ELEMS), "t_index": rng.randrange(0, 7)})
         elif r < 0.83:
